@@ -234,9 +234,15 @@ int URI_FUNC(ComposeQueryEngine)(URI_CHAR * dest,
 		valueRequiredChars = worstCase * (int)valueLen;
 
 		if (dest == NULL) {
-			(*charsRequired) += ampersandLen + keyRequiredChars + ((value == NULL)
-						? 0
-						: 1 + valueRequiredChars);
+			const int valuePartChars = (value == NULL) ? 0 : 1 + valueRequiredChars;
+
+			/* Refuse rather than let the sum wrap around */
+			if ((keyRequiredChars > INT_MAX - ampersandLen - valuePartChars)
+					|| (*charsRequired > INT_MAX - ampersandLen
+						- keyRequiredChars - valuePartChars)) {
+				return URI_ERROR_OUTPUT_TOO_LARGE;
+			}
+			(*charsRequired) += ampersandLen + keyRequiredChars + valuePartChars;
 
 			if (firstItem == URI_TRUE) {
 				ampersandLen = 1;
